@@ -672,6 +672,24 @@ func (g *G) blockAddrGlobal() {
 	if !g.chance("blockaddrglobal", 1, 3) {
 		return
 	}
+	// llvm-as-14 mis-resolves forward blockaddress references from global initialisers when the module
+	// also has unnamed (numbered) globals: its placeholder for the forward reference takes a number.
+	// The library prints globals before functions, so its output would hit this LLVM limitation.
+	for _, gl := range g.M.Globals {
+		if gl.Name == "" {
+			return
+		}
+	}
+	for _, f := range g.M.Funcs {
+		if f.Name == "" {
+			return
+		}
+	}
+	for _, a := range g.M.Aliases {
+		if a.Name == "" {
+			return
+		}
+	}
 	var elems []*am.Const
 	for _, f := range g.M.Funcs {
 		if f.AddrSpace != 0 || f.Name == "" {
